@@ -193,7 +193,7 @@ func (e *Engine) invokeUnknown(f *frame, st *State, cc *ssa.CallCommon, recv Val
 	key := typeStr(cc.Value.Type()) + "." + cc.Method.Name()
 	// interface-level contract?
 	if ct := e.W.Contracts["iface "+key]; ct != nil {
-		return e.applyContract(f, st, ct, nil, cc.Signature(), append([]Val{recv}, args...), rt, pos, key)
+		return e.applyContract(f, st, ct, nil, ct.IfaceSig, append([]Val{recv}, args...), rt, pos, key)
 	}
 	// methods that return a constant in every implementer (GetOpCode, IsResponse, ...) are pure functions of the
 	// dynamic type: f(tag), with f(tag_T) = the constant T's method returns
@@ -225,6 +225,12 @@ func (e *Engine) staticCall(f *frame, st *State, fn *ssa.Function, args []Val, b
 		// method receivers may be nil: callee dereferences are its own obligation, but with a contract the
 		// caller must establish "receiver != nil" only if the contract requires it.
 		ct := e.W.Contracts[key]
+		if top := topFrame(f); ct != nil && top.ct != nil && top.ct.Expand[key] {
+			// the function under verification asks for this callee's body (lemmas about the body itself)
+			rets, exit, _ := e.execFunc(fn, args, binds, st, f, ct)
+			*st = *exit
+			return packResults(rt, rets)
+		}
 		if ct != nil && !ct.Inline {
 			return e.applyContract(f, st, ct, fn, fn.Signature, args, rt, pos, key)
 		}
@@ -546,4 +552,11 @@ func (e *Engine) constMethodFor(ifaceT types.Type, method *types.Func, recv Val,
 		e.note("interface method " + name[6:] + " returns a constant in every repository implementer; modelled as a function of the dynamic type (implementers outside the repository are not considered)")
 	}
 	return Val{Typ: rt, Terms: []*smt.Term{e.C.App(name, sorts[0], recv.Terms[0])}}, true
+}
+
+func topFrame(f *frame) *frame {
+	for f.parent != nil {
+		f = f.parent
+	}
+	return f
 }
